@@ -329,7 +329,7 @@ func execC06HTTP(c C06Case) *Failure {
 		}()
 		select {
 		case pan := <-done:
-			return exchangeFromHTTP(rec.Code, rec.Header(), rec.Body.Bytes()), pan
+			return exchangeFromHTTP(rec.Code, rec.Result().Header, rec.Body.Bytes()), pan
 		case <-time.After(Patience()):
 			hung = true
 			return Exchange{Status: 599}, nil
